@@ -12,7 +12,8 @@
 (***************************************************************************)
 EXTENDS Naturals, Sequences, FiniteSets, TLC
 
-CONSTANT N          \* nodes are 1 .. N; every successor relation over them is explored
+CONSTANTS N,        \* nodes are 1 .. N; every successor relation over them with at most MAXE edges is explored
+          MAXE
 
 Nodes == 1 .. N
 VARIABLES succ,     \* the graph: node -> set of successors (constant along a behaviour)
@@ -25,7 +26,9 @@ VARIABLES succ,     \* the graph: node -> set of successors (constant along a be
           out       \* emitted components, in order
 vars == <<succ, lowest, stack, trail, t, frames, roots, out>>
 
-Init == /\ succ \in [Nodes -> SUBSET Nodes]
+RECURSIVE CountE(_, _)
+CountE(f, v) == IF v > N THEN 0 ELSE Cardinality(f[v]) + CountE(f, v + 1)
+Init == /\ succ \in {f \in [Nodes -> SUBSET Nodes] : CountE(f, 1) <= MAXE}
         /\ lowest = [v \in Nodes |-> 0]
         /\ stack = <<>> /\ trail = {} /\ t = 0 /\ frames = <<>>
         /\ roots = Nodes /\ out = <<>>
